@@ -11,7 +11,7 @@
 //!
 //! records
 //!   14001 set              ps=[be N ext base2k k_lut kmsg]        vs=[f]        -> [data_0 .. data_{ext-1} (limb-major flat), [drift]]
-//!   14002 set;rotate(k)    ps=[be N ext base2k k_lut kmsg k]      vs=[f]        -> same
+//!   14002 set;rotate(k)    ps=[be N ext base2k k_lut kmsg]        vs=[f, ks]    -> for each k: data_0 .. data_{ext-1} of a fresh table rotated by k
 //!   14003 set;rotate sweep ps=[be N ext base2k k_lut kmsg]        vs=[f, ks]    -> for each k: the limbs of coefficient 0 of data_0
 //!   14004 mod_switch_2n    ps=[n2 base2k size dir]                vs=[limb_0..] -> [res]
 //!   14010 blind, raw       ps=BP                                  vs=[f, lwe (limb-major flat), sk_lwe] -> [res col 0.. (limb-major flat)]
@@ -261,6 +261,13 @@ fn op(r: &Rec) -> Vec<Vec<i128>> {
             with_be!(be, BE, {
                 let m = module::<BE>(n);
                 let f = v64(&r.vs[0]);
+                if r.code == 14002 {
+                    return r.vs[1].iter().flat_map(|k| {
+                        let mut lut = mk_lut(&m, n, ext, base2k, k_lut, kmsg, &f);
+                        m.lookup_table_rotate(*k as i64, &mut lut);
+                        let mut d = dump_lut(&lut); d.pop(); d
+                    }).collect();
+                }
                 if r.code == 14003 {
                     return r.vs[1].iter().map(|k| {
                         let mut lut = mk_lut(&m, n, ext, base2k, k_lut, kmsg, &f);
@@ -269,10 +276,7 @@ fn op(r: &Rec) -> Vec<Vec<i128>> {
                         (0..d.size()).map(|j| d.at(0, j)[0] as i128).collect()
                     }).collect();
                 }
-                let mut lut = mk_lut(&m, n, ext, base2k, k_lut, kmsg, &f);
-                if r.code == 14002 {
-                    m.lookup_table_rotate(p[6] as i64, &mut lut);
-                }
+                let lut = mk_lut(&m, n, ext, base2k, k_lut, kmsg, &f);
                 dump_lut(&lut)
             })
         }
@@ -368,18 +372,15 @@ pub fn generate(tier: &str, seed: u64) -> Vec<Rec> {
                     let stp = if len == 0 { 0 } else { (domain + len / 2) / len };
                     if len == 0 || len > n || len * stp > domain { continue; }
                     // sweep: every k in [-2N ext, 2N ext) (both directions), a few beyond, and the i64 extremes
-                    let full_sweep = thorough || n == 8 || ri == 0 || ri == 4;
+                    let full_sweep = thorough || n == 8 || (ri == 4 && (n == 16 || ext <= 2));
                     let mut ks: Vec<i128> = if full_sweep { (-t..t).map(|k| k as i128).collect() }
-                                            else { (0..48).map(|_| rng.range(-t, t - 1) as i128).collect() };
+                                            else { (0..24).map(|_| rng.range(-t, t - 1) as i128).collect() };
                     ks.extend([-t - 1, -t - 3, t, t + 5, 3 * t + 1, -5 * t - 2, i64::MIN, i64::MAX, i64::MIN + 1, 1 << 62, -(1 << 62) - 7].map(|k| k as i128));
                     out.push(Rec::new(14003, ps.clone(), vec![f.clone(), ks]));
                     // full dumps after a rotation: all j at N = 8 (and everywhere in the thorough tier), a sample otherwise
-                    let js: Vec<i64> = if (n == 8 && (ri == 0 || ri == 3)) || thorough { (0..t).collect() }
+                    let js: Vec<i64> = if (n == 8 && (ri == 0 || (ri == 3 && ext <= 2))) || thorough { (0..t).collect() }
                                        else { let mut v: Vec<i64> = (0..6).map(|_| rng.range(-t, t - 1)).collect(); v.extend([1, -1, t - 1, i64::MIN]); v };
-                    for j in js {
-                        let mut p2 = ps.clone(); p2.push(j as i128);
-                        out.push(Rec::new(14002, p2, vec![f.clone()]));
-                    }
+                    out.push(Rec::new(14002, ps.clone(), vec![f.clone(), js.iter().map(|j| *j as i128).collect()]));
                 }
             }
         }
@@ -438,7 +439,7 @@ pub fn generate(tier: &str, seed: u64) -> Vec<Rec> {
                     let len = 1usize << rng.below(n.trailing_zeros() as u64 + 1);
                     let f = rand_f(&mut rng, len, kmsg, b as usize);
                     let sk = to128(&sk_lwe_of(&c));
-                    let idxs: Vec<i64> = if n == 8 || thorough { (0..t).collect() } else { let mut v: Vec<i64> = (0..10).map(|_| rng.range(0, t - 1)).collect(); v.extend([0, 1, t - 1, t / 2]); v };
+                    let idxs: Vec<i64> = if (n == 8 && b == 19) || thorough { (0..t).collect() } else { let mut v: Vec<i64> = (0..10).map(|_| rng.range(0, t - 1)).collect(); v.extend([0, 1, t - 1, t / 2]); v };
                     for idx in idxs {
                         let mut l2n = vec![0i64; c.n_lwe + 1];
                         l2n[0] = idx;
@@ -450,14 +451,16 @@ pub fn generate(tier: &str, seed: u64) -> Vec<Rec> {
     }
 
     // ---------------- blind path, real keys, every message ----------------
-    let pmax = if thorough { 5 } else { 3 };
-    let variants: [(i128, usize, usize); 10] = [(0, 1, 1), (1, 1, 1), (2, 1, 1), (3, 1, 1), (0, 7, 1), (0, 4, 1), (0, 7, 2), (0, 7, 4), (0, 7, 8), (0, 1, 2)];
+    // (dist, block, ext, keys, pmax) ; thorough: 3 keys, p = 1..5 everywhere
+    let variants: [(i128, usize, usize, usize, usize); 10] = [(0, 1, 1, 2, 3), (1, 1, 1, 1, 2), (2, 1, 1, 1, 2), (3, 1, 1, 1, 2), (0, 7, 1, 2, 3),
+                                                              (0, 4, 1, 1, 2), (0, 7, 2, 1, 3), (0, 7, 4, 1, 2), (0, 7, 8, 1, 1), (0, 1, 2, 1, 2)];
     for (set, base) in [test_params(0), alt_params(0)].iter().enumerate() {
-        for (vi, (dist, block, ext)) in variants.iter().enumerate() {
+        for (vi, (dist, block, ext, nkeys, pmax)) in variants.iter().enumerate() {
             if set == 1 && !(vi == 0 || vi == 1 || vi == 5 || vi == 7) { continue; }
             let block = if set == 1 && *block == 7 { 4 } else { *block };
-            let keys: Vec<u64> = if thorough { vec![1, 2, 3] } else if vi == 0 || vi == 4 || vi == 6 { vec![1, 2] } else { vec![1] };
-            for key_seed in keys {
+            let nkeys = if thorough { 3 } else if set == 1 { 1 } else { *nkeys };
+            let pmax = if thorough { 5 } else if set == 1 { 2 } else { *pmax };
+            for key_seed in 1..=nkeys as u64 {
                 for dir in [0i128, 1] {
                     for p in 1..=pmax {
                         let be = if set == 0 { [1i128, 2][(vi + p) % 2] } else { next_be() };
@@ -478,14 +481,21 @@ pub fn generate(tier: &str, seed: u64) -> Vec<Rec> {
     // ---------------- blind path, real keys, boundary masks (noise-free ciphertexts with chosen mod-switched coefficients) ----------------
     for (dist, block, ext) in [(0i128, 1usize, 1usize), (0, 7, 1), (0, 7, 2), (0, 7, 4), (0, 7, 8), (0, 1, 4)] {
         for dir in [0i128, 1] {
+            if !thorough && ext == 4 && block == 1 && dir == 1 { continue; }
             let mut c = test_params(if ext > 2 { 2 } else { 1 });
             c.dist = dist; c.block = block; c.ext = ext; c.dir = dir; c.p = 3; c.kmsg = 4;
             let t = (2 * c.n * c.ext) as i64;
             let e = ext as i64;
+            let nn = c.n as i64;
             let f: Vec<i128> = (0..8).map(|i| (2 * i + 1) as i128).collect();
             let sk = sk_lwe_of(&c);
-            let mut avals: Vec<i64> = vec![0, 1, -1, e, -e, t / 2, t / 2 - 1, -(t / 2) + 1, e * (c.n as i64), e * (c.n as i64) + 1, e + 1, -e - 1, 2 * e - 1];
-            for r in 1..e { avals.extend([r, -r, t / 2 + r, e * (2 * c.n as i64 - 1) + r]); }
+            let mut avals: Vec<i64> = if thorough || ext <= 2 {
+                let mut v = vec![0, 1, -1, e, -e, t / 2, t / 2 - 1, -(t / 2) + 1, e * nn, e * nn + 1, e + 1, -e - 1, 2 * e - 1];
+                for r in 1..e { v.extend([r, -r, t / 2 + r, e * (2 * nn - 1) + r]); }
+                v
+            } else if block == 1 { vec![1, -1, e, 2] }
+            else if ext == 4 { vec![0, 1, -1, 3, -3, e, t / 2 + 1, e * (2 * nn - 1) + 1, e * nn + 1] }
+            else { vec![1, -1, 7, -7, e, e * (2 * nn - 1) + 3] };
             avals.sort(); avals.dedup();
             let reps = if thorough { 3 } else { 1 };
             for av in avals {
